@@ -45,7 +45,21 @@ TEMPLATES = {
     "repeatstate": '<a tal:condition="x" tal:repeat="i y">${repeat.i.number}/${repeat.i.length}:${i}</a>[${exists: repeat.i}]'
                    '<b tal:repeat="i d">${repeat.i.index}</b>',
     "onerror": '<a tal:on-error="string:E ${error.type.__name__}" tal:define="global q y">${y[5]}</a>${q | \'-\'}',
+    # what a template writes into `attrs` (or into any object the engine hands out) must not reach the next rendering
+    "attrsdict": '<p class="a" tal:define="n attrs.setdefault(\'count\', 0); dummy attrs.update(count=n + len(y) + 1)">'
+                 '${attrs[\'count\']}:${sorted(attrs)}</p><q tal:define="n attrs.setdefault(\'k\', x)">${attrs[\'k\']}</q>',
+    # named blocks of a translation: the mapping reaches the translation function in one order in every process
+    "namesorder": '<p i18n:translate="">A <b i18n:name="zeta">${x}</b> B <i i18n:name="alpha">1</i> C <u i18n:name="mid_1">2</u> '
+                  'D <s i18n:name="beta9">3</s> E <em i18n:name="omega">4</em></p>',
 }
+TRANSLATE_SRC = ("def translate(msgid, domain=None, mapping=None, context=None, target_language=None, default=None):\n"
+                 "    text = default if default is not None else str(msgid)\n"
+                 "    if mapping:\n"
+                 "        text = '[' + ','.join(mapping) + ']' + text\n"
+                 "        for k, v in mapping.items():\n"
+                 "            text = text.replace('${%s}' % k, str(v))\n"
+                 "    return text\n")
+exec(TRANSLATE_SRC)
 ARGS = [
     {"x": "<one>", "y": [1, 2], "d": {"b": "2", "a": "1"}, "s": {"p", "q"}},
     {"x": "two", "y": [], "d": {}, "s": set()},
@@ -75,11 +89,11 @@ def history_part(ctx, quick):
     # reference outputs from a fresh process with another hash seed
     ref = {}
     job = json.dumps({"templates": TEMPLATES, "args": [{k: (sorted(v) if isinstance(v, set) else v) for k, v in a.items()} for a in ARGS]})
-    code = ("import sys, json; sys.path.insert(0, %r)\nfrom chameleon" % REPO_SRC + " import PageTemplate\nj = json.loads(sys.argv[1])\nout = {}\n"
+    code = ("import sys, json; sys.path.insert(0, %r)\nfrom chameleon" % REPO_SRC + " import PageTemplate\nj = json.loads(sys.argv[1])\nout = {}\n" + TRANSLATE_SRC +
             "for name, src in j['templates'].items():\n"
             "    for n, a in enumerate(j['args']):\n"
             "        a = dict(a); a['s'] = set(a['s'])\n"
-            "        try: out['%s/%d' % (name, n)] = PageTemplate(src)(**a)\n"
+            "        try: out['%s/%d' % (name, n)] = PageTemplate(src, translate=translate)(**a)\n"
             "        except Exception as e: out['%s/%d' % (name, n)] = 'EXC ' + type(e).__name__\n"
             "print(json.dumps(out))\n")
     for seed in ("1", "12345"):
@@ -96,7 +110,7 @@ def history_part(ctx, quick):
     n = 0
     for rec in r.records:
         for name, src in TEMPLATES.items():
-            insts = {1: PageTemplate(src), 2: PageTemplate(src)}
+            insts = {1: PageTemplate(src, translate=translate), 2: PageTemplate(src, translate=translate)}
             for call in rec["hist"]:
                 a = copy.deepcopy(ARGS[call["a"] - 1])
                 before = copy.deepcopy(a)
